@@ -524,6 +524,10 @@ func runC05(r *simkit.Run) {
 				if err == nil || !consumererror.IsPermanent(err) {
 					r.Failf("result", "permanent-not-reported", "permanent failure reported as %v", err)
 				}
+				if experr.IsShutdownErr(err) {
+					// shutdown-classified means "interrupted, keep the request and send it again": not after a verdict
+					r.Failf("result", "permanent-verdict-classified-as-shutdown", "the backend's permanent verdict is reported as a shutdown interruption (a queue would keep the request and send it again): %v", err)
+				}
 			case "gave-up":
 				if err == nil {
 					r.Failf("result", "failure-reported-as-success", "retries ended without success but the caller got nil")
@@ -548,6 +552,26 @@ func runC05(r *simkit.Run) {
 				}
 			}
 		}
+	}
+	if !r.Failed() && cfg.Persistent && shutFired && (verdict == "permanent" || verdict == "success") {
+		// the request got its verdict (from the attempt in flight when Shutdown was requested, or before): the next
+		// incarnation must not hand it over again
+		be2 := newBackend(ad, func() int64 { return time.Now().UnixNano() })
+		exp2 := build(be2)
+		inc2 := disk.NewIncarnation(2)
+		if err := exp2.Start(context.Background(), &simHost{ext: map[component.ID]component.Component{storageID: inc2}}); err != nil {
+			panic(err)
+		}
+		r.Settle()
+		if p := be2.gate.Parked(); len(p) > 0 {
+			r.Failf("retry", "attempt-after-verdict/next-incarnation", "the request ended with verdict %s while the exporter was shutting down, yet the next incarnation hands it over again", verdict)
+			be2.gate.ReleaseAll(nil)
+			r.Settle()
+		}
+		r.Count("probe.restart_after_verdict_during_shutdown")
+		sd := simkit.Go("sd2", func(t *simkit.Task) { t.Err = exp2.Shutdown(context.Background()) })
+		r.Settle()
+		_ = sd
 	}
 	if !r.Failed() && cfg.Persistent && (verdict == "shutdown" || verdict == "shutdown-during") { // (not for the two other during-shutdown verdicts)
 		// the request must still be stored: a fresh incarnation hands it over again
